@@ -492,6 +492,9 @@ func (env *Env) unary(t *Node) V {
 		if x.Sign() <= 0 {
 			return nonfin(cNaN)
 		}
+		if x.Cmp(bfI(1)) == 0 && a.E == 0 {
+			return fin(bf(), 0)
+		}
 		v := bigLog(x)
 		if a.E >= xa {
 			return fin(v, math.Inf(1))
